@@ -964,10 +964,18 @@ def r12(R):
     bs = R.prog.cls(BS)
     beg = R.method(bs, 'tpc_begin')
     tparam = [p for p in beg.params if p != 'self'][0]
+    # reads that are allowed to fail: inside a `try` that catches
+    # AttributeError (the fallback's own reads count)
+    tolerant = {id(x) for t in walk_local(beg.node)
+                if isinstance(t, ast.Try) and any(
+                    h.type is None or 'AttributeError' in ast.unparse(h.type)
+                    or 'Exception' in ast.unparse(h.type)
+                    for h in t.handlers)
+                for s_ in t.body for x in ast.walk(s_)}
     reads = sorted({x.attr for x in walk_local(beg.node)
                     if isinstance(x, ast.Attribute) and isinstance(
                         x.value, ast.Name) and x.value.id == tparam and
-                    isinstance(x.ctx, ast.Load)})
+                    isinstance(x.ctx, ast.Load) and id(x) not in tolerant})
     R.require(reads, 'BaseStorage.tpc_begin reads nothing from its '
               'transaction')
     n = 0
